@@ -79,6 +79,12 @@ func c05Proxy(r *Run) {
 	a1, a2 := r.Net.Pair("A", r.Net.NewClientAddr(), mustAddr("10.0.0.3:9042"), optsA)
 	b1, b2 := r.Net.Pair("B", r.Net.NewClientAddr(), mustAddr("10.0.0.2:9042"), optsB)
 	wcodec, pcodec, rcodec := frameCodecFor(comp), frameCodecFor(comp), frameCodecFor(comp)
+	if T.Bool("sharedcodec", 0.3) {
+		// one codec instance for all three tasks, as a proxy that keeps a single codec does; a write that
+		// blocks half-way on a small link is where another task gets to use the codec meanwhile
+		pcodec, rcodec = wcodec, wcodec
+		r.Config["codec"] = "one instance shared by writer, proxy and reader"
+	}
 	type sentRec struct {
 		f          *frame.Frame
 		kind       string
